@@ -143,7 +143,7 @@ def clientLine (rs : RibSt) (cl : Cl.State) (ts : List Tok) : RibSt × Cl.State 
           -- C13 monitor (conservation, on the client's own observations against the log of what the
           -- application handed over and the client registered): an operation that has left the send
           -- queue is pending or has a terminal result — it is never lost
-          let rs := match cl.accepted.find? (fun a => !ids.contains a.1 &&
+          let rs := match cl.accepted.find? (fun a => !ids.contains a.1 && !cl.ackedByApp.contains a.1 &&
               !obsRes.any (fun o => !o.isNil && o.opId == a.1 && terminal cl.fibMode (statusOfNum o.status))) with
             | some a => rs.monfail "c13" s!"operation {a.1} was handed to the client and registered, but is neither pending nor represented by a terminal result: it is lost"
             | none => rs
@@ -158,6 +158,23 @@ def clientLine (rs : RibSt) (cl : Cl.State) (ts : List Tok) : RibSt × Cl.State 
             else rs.diff "cl.results" s!"model has {cl.results.length} results, impl {obsRes.length} (or one differs)"
           (rs, cl)
         | _, _, _, _, _, _, _ => (bad rs, cl)
+      | _ => (bad rs, cl)
+    else if c = "cl.ack" then
+      -- the application acknowledges results (AckResult): they leave the queue
+      match beforeArrow args, afterArrow args with
+      | [l], [e] =>
+        match natListOf l with
+        | some ackIds =>
+          let rs := if tokStr e == "0" then rs else rs.monfail "c13" s!"AckResult of results that are in the queue ({ackIds}) reported an error"
+          (rs.covr "cl.ack", Cl.ack cl ackIds)
+        | none => (bad rs, cl)
+      | _, _ => (bad rs, cl)
+    else if c = "cl.snap" then
+      -- a snapshot of the results the application took earlier is still what it was
+      match args with
+      | [ok] =>
+        if tokStr ok == "1" then (rs.covr "cl.snap", cl)
+        else (rs.monfail "c13" "a Results() snapshot held by the application changed after AckResult / later results (results lost from it, or results of other operations written into it)", cl)
       | _ => (bad rs, cl)
     else if c = "cl.after" then
       -- C13 monitor on the client's own state right after AwaitConverged returned
